@@ -12,8 +12,8 @@ PROPS = ["C14", "C15"]
 
 MANIFEST = {
     "C14": dict(
-        technique="Lean 4 proof: inductive invariant of the rotation model (abstract file system, _created_files, rename chain) over all op sequences for the Index scheme, per-run partial theorems + proved counter-witnesses for Date/DateAndTime; extraction of the structure of RotatingSink.h; differential correspondence on the real RotatingFileSink in a scratch directory + property oracle on the real directory",
-        text="Machine-checked proof (Lean 4) about a model of RotatingSink (constructor with clean-up/recovery scan, write_log, _size_rotation, _time_rotation, _rotate_files): for the Index scheme and every sequence of writes (any size, any timestamp) and restarts (any limit, backup count, overwrite flag, open mode a / w-with-clean-up, frequency), with unrelated files present: every statement is appended whole to exactly one file and stays in exactly one file (renames move whole files, a rename never lands on an existing file); reading the retained files oldest to newest (strictly decreasing index, then the current file) gives the written sequence minus a prefix made of whole deleted files (nothing is deleted when overwriting is off); the current file exceeds the limit only if it holds a single statement or rotation has stopped; the number of rotated files never rises above max_backup_files; an append-mode restart recovers exactly the existing index sequence and continues it; unrelated files are never touched. Date/DateAndTime: the same per run under the premise of non-decreasing timestamps (…_partial), with proved counter-witnesses for non-monotone timestamps (F14), for the cross-restart bound (F15) and for a backup set larger than a lowered max_backup_files (F16). Tied to the code by extracting ~30 structural facts of RotatingSink.h (trigger comparisons, order of rename/delete/open, oldest-first loop, recovery rules, defaults, validation) whose obligations are re-proved on every run, and by driving the real RotatingFileSink with generated op sequences (sizes limit±1, restarts, planted files) and comparing directory listing, per-file statement ids, _created_files, _file_size with the model after every operation.",
+        technique="Lean 4 proof: inductive invariants of the rotation model (abstract file system, _created_files, rename chain): over all op sequences for the Index scheme, under monotone-date premises for Date/DateAndTime, with proved counter-witnesses for what fails without them; extraction of the structure of RotatingSink.h; differential correspondence on the real RotatingFileSink in a scratch directory + property oracle on the real directory",
+        text="Machine-checked proof (Lean 4) about a model of RotatingSink (constructor with clean-up/recovery scan, write_log, _size_rotation, _time_rotation, _rotate_files): for the Index scheme and every sequence of writes (any size, any timestamp) and restarts (any limit, backup count, overwrite flag, open mode a / w-with-clean-up, frequency), with unrelated files present: every statement is appended whole to exactly one file and stays in exactly one file (renames move whole files, a rename never lands on an existing file); reading the retained files oldest to newest (strictly decreasing index, then the current file) gives the written sequence minus a prefix made of whole deleted files (nothing is deleted when overwriting is off); the current file exceeds the limit only if it holds a single statement or rotation has stopped; the number of rotated files never rises above max_backup_files; an append-mode restart recovers exactly the existing index sequence and continues it; unrelated files are never touched. Date/DateAndTime (…_partial): under the premises that the civil day/second of start instant and record timestamps never decreases and that unrecovered dated files in the directory are strictly older than the start, an inductive invariant gives, within a run and again after each restart, existence of all tracked files, deque order = name order of the scheme (earlier date older, same date larger index older), retained sequence = written sequence minus a prefix of whole deleted files, and rename targets absent or already vacated; proved counter-witnesses show what fails without the premises: non-monotone timestamps (F14), the cross-restart backup bound (F15), a backup set larger than a lowered max_backup_files (F16). Tied to the code by extracting ~30 structural facts of RotatingSink.h (trigger comparisons, order of rename/delete/open, oldest-first loop, recovery rules, defaults, validation) whose obligations are re-proved on every run, and by driving the real RotatingFileSink with generated op sequences (sizes limit±1, restarts, planted files) and comparing directory listing, per-file statement ids, _created_files, _file_size with the model after every operation.",
         note="Naming scheme and base file name fixed for the life of a directory; FilenameAppendOption::None; fopen/rename failures not injected; uint64 wrap of timestamps ignored; w-mode restart without clean-up (remove_old_files=false) orphans the previous run's files — modelled and exercised, outside the Index theorem's premise.",
         ref="§5 C14, §7 F14 F15"),
     "C15": dict(
@@ -27,7 +27,9 @@ THEOREMS = {
     "C14": ["Rot.C14_index_invariant", "Rot.C14_index_sequence", "Rot.C14_index_write", "Rot.C14_index_exactly_one_file",
             "Rot.C14_index_backup_bound", "Rot.C14_index_backup_bound_run", "Rot.C14_index_no_clobber",
             "Rot.C14_index_append_restart_recovers", "Rot.C14_limit", "Rot.C14_unrelated_untouched",
-            "Rot.C14_dated_run_partial", "Rot.C14_F14_nonmonotone_order_fails", "Rot.C14_F15_restart_bound_fails",
+            "Rot.C14_any_scheme_write", "Rot.C14_dated_run_partial", "Rot.C14_dated_no_clobber_partial",
+            "Rot.C14_dated_restart_partial", "Rot.monoSfx_of_sorted", "Rot.rotate_generic", "Rot.chain_generic",
+            "Rot.C14_F14_nonmonotone_order_fails", "Rot.C14_F15_restart_bound_fails",
             "Rot.C14_F16_lowered_max_never_shrinks", "Rot.rotate_index", "Rot.restart_inv", "Rot.applyMoves_get",
             "Obligations.rot_extraction_complete", "Obligations.rot_size_facts_hold", "Obligations.rot_defaults", "Obligations.rot_enums",
             "Obligations.C14_extracted"],
